@@ -893,3 +893,12 @@ V("c07-keypairs-unguarded", "C07", "fire", "C07.R5",
 V("c07-defines-get-ok", "C07", "silent", None,
   (CF, "        if defname in self.defines:\n            if self.defines[defname] != defvalue:",
        "        if defname in self.defines.keys():\n            if self.defines[defname] != defvalue:"))
+LX = "src/ZConfig/components/logger/handlers.xml"
+V("c20-xml-delay-string", "C20", "fire", "C20.R2",
+  (LX, '<key name="delay" required="no" default="false" datatype="boolean">', '<key name="delay" required="no" default="false" datatype="string">'))
+V("c20-xml-level-integer", "C20", "fire", "C20.R2",
+  ("src/ZConfig/components/logger/base-logger.xml",
+   'datatype="ZConfig.components.logger.datatypes.logging_level"', 'datatype="integer"'))
+V("c20-xml-syslog-not-handler", "C20", "fire", "C20.R2",
+  (LX, '  <sectiontype name="syslog"\n               datatype=".handlers.SyslogHandlerFactory"\n               implements="ZConfig.logger.handler"',
+       '  <sectiontype name="syslog"\n               datatype=".handlers.SyslogHandlerFactory"'))
